@@ -80,6 +80,7 @@ class PythonModuleInstance(ModuleInstance):
         imports["wasm_rt_memory_grow"] = self.memory_grow
         imports["wasm_rt_memory_size"] = self.memory_size
         imports["wasm_rt_memory_init"] = self.memory_init
+        imports["wasm_rt_data_drop"] = self.data_drop
         imports["wasm_rt_memory_copy"] = self.memory_copy
         imports["wasm_rt_memory_fill"] = self.memory_fill
 
